@@ -437,6 +437,31 @@ func c04Scenario(c *Ctx, idx int, r *Rng) (mlines, mimpl, mcase []string) {
 			c.R.Count("mutation." + f.mutation)
 		}
 	}
+	if mutates && r.Chance(35) {
+		// a whole directory is gone from the work tree (rm -rf assets): its files are missing AND there is
+		// no directory to put them back into
+		var dirs []string
+		seen := map[string]bool{}
+		for _, f := range files {
+			if d := filepath.Dir(f.path); d != "." && !seen[d] {
+				seen[d] = true
+				dirs = append(dirs, d)
+			}
+		}
+		if len(dirs) > 0 {
+			sort.Strings(dirs)
+			top := strings.SplitN(Pick(r, dirs), "/", 2)[0]
+			os.RemoveAll(filepath.Join(cl.dir, top))
+			for _, f := range files {
+				if strings.HasPrefix(f.path, top+"/") && f.mutation != "git-rm" {
+					f.mutation = "deleted"
+					f.before = nil
+				}
+			}
+			log("rm -rf %s", top)
+			c.R.Count("mutation.directory-removed")
+		}
+	}
 	// ---- the command
 	var args []string
 	var coArgs []c04Pat
